@@ -32,7 +32,17 @@ Many(n) == [i \in 1..n |-> Unt("v" \o ToString(i), i)]
 RECURSIVE SumRefs(_)
 SumRefs(n) == IF n = 1 THEN Ref("v1") ELSE Bin("+", SumRefs(n - 1), Ref("v" \o ToString(n)))
 ManyP == {P("many", <<Ex("x", "signal-E", 5)>> \o Many(n) \o <<SLet("Signal", "r", Bin("+", SumRefs(n), X))>>) : n \in {4, 12, 30}}
-All == Basic \cup Consts \cup Several \cup ManyP
+\* a typed constant used as a place() coordinate (documented idiom) is still an explicit signal of the program
+Coord == {
+  P("coord", <<Ex("px", "signal-A", 3), Unt("y", 7), SPlace("l", "small-lamp", Ref("px"), Num(0), <<>>), SLet("Bundle", "bb", BLit(<<Y, Ref("px")>>)),
+               SProp("l", "enable", Bin("<", AllE(Ref("bb")), Num(8)))>>),
+  P("coord", <<Ex("px", "signal-A", 3), Unt("y", 7), SPlace("l", "small-lamp", Ref("px"), Num(0), <<>>), SLet("Signal", "r", Bin("+", Y, Num(1)))>>),
+  P("coord", <<Ex("px", "signal-B", 2), Ex("py", "signal-A", 4), Unt("y", 7), SPlace("l", "small-lamp", Ref("px"), Ref("py"), <<>>),
+               SLet("Bundle", "bb", BLit(<<Y, Ref("py"), Ref("px")>>)), SProp("l", "enable", Bin(">", AnyE(Ref("bb")), Num(6)))>>),
+  P("coord", <<Ex("px", "signal-C", 3), Unt("y", 7), Unt("u", 2), Unt("w", 1), SPlace("l", "steel-chest", Bin("+", Ref("px"), Num(1)), Num(0), <<>>),
+               SLet("Signal", "r", Bin("+", Bin("+", Y, U), Ref("w")))>>)
+ }
+All == Basic \cup Consts \cup Several \cup ManyP \cup Coord
 ASSUME PrintT(<<"NPROGS", Cardinality(All)>>)
 ASSUME JsonSerialize(IOEnv.GEN_OUT, SetToSeq(All))
 =============================================================================
